@@ -59,6 +59,24 @@ def tainted_leaves(f, expr, at):
     return [x for x in cl if is_source(x, f)]
 
 
+def check_path_transcoding(P, R, rid):
+    """the path is re-read as UTF-8 through `.encode('latin1').decode('utf8')`: both steps fail for some paths (a character above U+00FF cannot be encoded, a
+    byte sequence may not be UTF-8), and the handler that answers 400 through the normal error rendering covers both"""
+    from .c17 import _caught
+    h = P.func('ombott.ombott:Ombott._handle')
+    n = 0
+    for c in walk_shallow(h.node):
+        if isinstance(c, ast.Call) and call_attr(c) == 'decode' and isinstance(c.func.value, ast.Call) and call_attr(c.func.value) == 'encode':
+            n += 1
+            both = _caught(c, {'UnicodeError', 'ValueError', 'Exception', 'BaseException'}) or \
+                (_caught(c, {'UnicodeEncodeError'}) and _caught(c, {'UnicodeDecodeError'}))
+            R.ob(rid, h, c, both, text=f'`{short(c)}`: a path that cannot be encoded and one that cannot be decoded are both answered by the handler', detail='' if both else
+                 f'the handler around `{short(c)}` does not catch UnicodeEncodeError: a PATH_INFO holding a character above U+00FF (a path some server already decoded) leaves '
+                 f'_handle as an exception and is answered by the last-resort HTML page - also for a client that asked for JSON',
+                 why='when JSON is requested the error body is valid JSON, for every framework-generated error', key_extra='path-transcode')
+    R.ob(rid, h, h.node, n >= 1, text=f'{n} latin1 -> utf8 re-reading(s) of the path found in _handle', nontrivial=False)
+
+
 def check(P, R):
     R.rule('C20.a', 'request text reaches the error page only escaped', floor=4)
     R.rule('C20.b', 'framework error bodies are constants', floor=12)
@@ -66,6 +84,13 @@ def check(P, R):
     R.rule('C20.d', 'request data is never the format string', floor=2)
     R.rule('C20.e', 'last-resort page and JSON branch', floor=6)
 
+    check_path_transcoding(P, R, 'C20.e')
+    # the error document is rendered for this request and labelled by this request's choice of JSON / HTML: the Content-Type the error handler sets reaches the
+    # header dictionary that is sent (apply() copies into it, never re-points it), and no page rendered for another request is handed out (premises shared with C09)
+    from ..report import run_premise
+    from . import c09 as _c09
+    run_premise(R, _c09, P, {'C09.c', 'C09.d'}, 'C20.e',
+                'when JSON is requested the error body is valid JSON and is labelled as such - a JSON body served as text/html is markup made of request text')
     rn = P.func(f'{ER}:render')
     g, rd = rn.cfg, rn.rd
     urlp = rn.params[1]
